@@ -818,9 +818,9 @@ var idxDeletesMethods = map[string]bool{
 func (c *c06Causes) explain(method string, refs []string, corpusOn bool) string {
 	// without a corpus Index.AppendClaims filters with the index's own deletes cache
 	if idxDeletesMethods[method] || (method == "Index.AppendClaims" && !corpusOn) {
-		if c.hasDeletedRows {
-			return "idxdeletes"
-		}
+		// (the former cause "idxdeletes" — index.New discarding the deletes
+		// cache it had just loaded — has been repaired in /repo; a difference
+		// it would have explained is now reported)
 		for _, r := range refs {
 			if c.oddTarget[r] {
 				return "delnonclaim"
